@@ -12,6 +12,7 @@ import ast
 import inspect
 import textwrap
 import types
+from contracts.meshkit import Opts as _Opts  # noqa: E402
 
 import numpy
 import z3
@@ -239,7 +240,7 @@ def run_extrapolate(increasing):
             ctx.assume(psi1D[k + 1] > psi1D[k] if increasing else psi1D[k + 1] < psi1D[k])
         ctx.assume(press[-1] > 0)
         ctx.assume(psi_out > psi1D[-1] if increasing else psi_out < psi1D[-1])
-        me = types.SimpleNamespace(user_options=types.SimpleNamespace(reverse_current=False, psi_divide_twopi=False, reverse_Bt=False, extrapolate_profiles=True, psi_sol=psi_out, psi_sol_inner=psi_out))
+        me = types.SimpleNamespace(user_options=_Opts(reverse_current=False, psi_divide_twopi=False, reverse_Bt=False, extrapolate_profiles=True, psi_sol=psi_out, psi_sol_inner=psi_out))
         ctx.light_axioms = True
         with patched((T.warnings, "warn", lambda *a, **k: None)):
             out = fn(me, psi2D, psi1D, fpol, press, None, None)
@@ -286,7 +287,7 @@ def make_extrapolate_preprocessed_run(rc, tp):
             ctx.assume(psi1D_t[k + 1] > psi1D_t[k])
         ctx.assume(And(press[-1] > 0, psi_out > psi1D_t[-1]))
         ctx.light_axioms = True
-        opts = lambda a, b: types.SimpleNamespace(user_options=types.SimpleNamespace(reverse_current=a, psi_divide_twopi=b, reverse_Bt=False, extrapolate_profiles=True, psi_sol=psi_out, psi_sol_inner=psi_out))
+        opts = lambda a, b: types.SimpleNamespace(user_options=_Opts(reverse_current=a, psi_divide_twopi=b, reverse_Bt=False, extrapolate_profiles=True, psi_sol=psi_out, psi_sol_inner=psi_out))
         with patched((T.warnings, "warn", lambda *a, **k: None)):
             A = fn(opts(rc, tp), psi2D.copy(), psi1D.copy(), fpol.copy(), press.copy(), None, None)
             B = fn(opts(False, False), tr(psi2D), psi1D_t.copy(), fpol.copy(), press.copy(), None, None)
@@ -342,7 +343,7 @@ def make_critical_run(reverse, with_gfile):
         O = [(ctx.real("Ro%d" % k), ctx.real("Zo%d" % k), ctx.real("Po%d" % k)) for k in range(2)]
         X = [(ctx.real("Rx%d" % k), ctx.real("Zx%d" % k), ctx.real("Px%d" % k)) for k in range(2)]
         ax, bd = (ctx.real("simagx"), ctx.real("sibdry")) if with_gfile else (None, None)
-        me = types.SimpleNamespace(user_options=types.SimpleNamespace(reverse_current=reverse, xpoint_refine_atol=1e-10, xpoint_refine_maxits=10))
+        me = types.SimpleNamespace(user_options=_Opts(reverse_current=reverse, xpoint_refine_atol=1e-10, xpoint_refine_maxits=10))
         raised = None
         with patched((T.critical, "find_critical", lambda *a, **k: (list(O), list(X))), (T.warnings, "warn", lambda *a, **k: None)):
             try:
@@ -394,7 +395,7 @@ def run_preprocess(ctx):
                 psi1D, fpol, press = mkarr("psi1D", 3), mkarr("f", 3), mkarr("p", 3)
                 psi2D = mkarr("psi2D", 4).reshape(2, 2)
                 ax, bd = ctx.real("axis_g"), ctx.real("bdry_g")
-                me = types.SimpleNamespace(user_options=types.SimpleNamespace(reverse_current=rc, psi_divide_twopi=tp, reverse_Bt=rb, extrapolate_profiles=False))
+                me = types.SimpleNamespace(user_options=_Opts(reverse_current=rc, psi_divide_twopi=tp, reverse_Bt=rb, extrapolate_profiles=False))
                 keep = [psi1D.copy(), fpol.copy(), psi2D.copy()]
                 with patched((T.warnings, "warn", lambda *a, **k: None)):
                     out = fn(me, psi2D, psi1D, fpol, press, ax, bd)
